@@ -409,8 +409,12 @@ def run(res):
                                    input=m, observed='check_code = %s' % codes.get(i), expected='0'))
     res.extra['tolerances'] = {'balance': '(10 tol + 2e-7) * sum w (|y| + |mu|), exact rational evaluation', 'expectile 0.5 vs LinearGAM(2 lam)': '1e-6 of max|y| on fitted values',
                                'fit_quantile expectile sequence': 'exact binary64 equality', 'ratio': 'exact'}
-    res.trusted.append('PrimFloat primitives (kernel-implemented IEEE binary64 add/sub/div/abs/compare) are reported by Print Assumptions for C18_bisect_float_saturation_stops; no Floats.FloatAxioms are used')
-    res.trusted.append('Flocq (binary64 round-to-nearest-even as FLT rounding) for C18_binary64_rounding_contract; the link between that rounded-real model and the PrimFloat machine is covered by the bit-exact trace correspondence, not proved')
+    res.trusted.append('PrimFloat primitives (kernel-implemented IEEE binary64 add/sub/div/abs/compare) are reported by Print Assumptions for C18_bisect_float_saturation_stops (closed computations; that theorem uses no FloatAxioms)')
+    res.trusted.append('Flocq (binary64 round-to-nearest-even as FLT rounding) for C18_binary64_rounding_contract, and Flocq.IEEE754.PrimFloat (Prim2B, add/sub/div/abs/eqb/ltb/leb_equiv) for the refinement theorems')
+    res.trusted.append('standard-library axioms Coq.Floats.FloatAxioms used ONLY by C18_primfloat_midpoint_refines and C18_bisect_invariant_binary64 (coq/Proofs/C18PrimFlocq.v): '
+                       'add_spec, sub_spec, div_spec, abs_spec, eqb_spec, ltb_spec, leb_spec, Prim2SF_valid, SF2Prim_Prim2SF, Prim2SF_SF2Prim -- they specify the primitive float operations by the '
+                       'SpecFloat reference implementation; with them the PrimFloat bisection machine is proved to refine the Flocq-rounded real machine step by step for finite inputs in range')
+    res.trusted.append('still by correspondence only: that CPython evaluates the loop as the PrimFloat machine does (bit-exact replay of recorded fit_quantile traces every run)')
     res.trusted.append('the refits inside fit_quantile are an oracle (ratio sequence) in the bisection theorems: nothing is proved about how a refit changes the ratio')
 
 
